@@ -285,17 +285,21 @@ func doRun(p *props.Property, tier string, seed uint64, shards int, known *findi
 	for _, l := range lines {
 		fmt.Println(l)
 	}
+	// (os.Exit does not run the deferred removal of the scratch directory)
 	if nviol > 0 {
+		os.RemoveAll(work)
 		os.Exit(1)
 	}
 	if len(m.Infra) > 0 {
 		for _, s := range m.Infra {
 			fmt.Fprintln(os.Stderr, "infra:", clip(s, 1000))
 		}
+		os.RemoveAll(work)
 		os.Exit(2)
 	}
 	if m.Incomplete {
 		fmt.Fprintln(os.Stderr, "inconclusive: time budget exhausted before the case count was reached")
+		os.RemoveAll(work)
 		os.Exit(2)
 	}
 }
